@@ -3,6 +3,7 @@
 package linkedlog
 
 import (
+	"bytes"
 	"os"
 
 	"github.com/rpcpool/yellowstone-faithful/indexes"
@@ -40,6 +41,9 @@ func VerifC12LinkedLogFrame() {
 	if k := verifChoice("offsetKind", 1+len(offCands)); k == 0 {
 		offset = verifU64("offset")
 		verifAssume(offset <= uint64(N+1))
+		if verifParam("edgeoffsets", 0) == 1 { // quick tier: offsets at both ends of the file only
+			verifAssume(offset <= 1 || offset >= uint64(N-1))
+		}
 	} else {
 		offset = offCands[k-1]
 	}
@@ -63,105 +67,45 @@ func VerifC12LinkedLogFrame() {
 	verifReach("end")
 }
 
-// C12.linkedlog.parse — the decoders of the (decompressed) payload and of single entries over
-// arbitrary bytes: OffsetAndSizeAndSlotSliceFromBytes, OffsetAndSizeAndSlot.FromBytes /
-// FromReader, uvarintReader.
-func VerifC12LinkedLogParse() {
-	P := verifParam("P", 7)
-	n := verifChoice("len", P+1)
-	buf := verifBytes("payload", n)
-	if verifChoice("api", 2) == 0 {
-		out, err := OffsetAndSizeAndSlotSliceFromBytes(buf)
-		if err != nil {
-			verifAssert(out == nil, "C12.linkedlog.parse: SliceFromBytes returned entries together with an error")
-			verifReach("parse-error")
-		} else {
-			// every entry takes at least 4 bytes
-			verifAssert(len(out)*4 <= n, "C12.linkedlog.parse: more entries than the payload can hold")
-			// re-encoding the entries gives back the payload when every uvarint is minimal;
-			// in any case it is never longer than the payload
-			total := 0
-			for _, e := range out {
-				total += len(e.Bytes())
-			}
-			verifAssert(total <= n, "C12.linkedlog.parse: decoded entries re-encode to more bytes than the payload")
-			verifReach("parse-ok")
+// C12.linkedlog.read — LinkedLog.Read(offset): the record size is the uvarint stored at offset
+// in a log of arbitrary bytes. Error or (entries, next pointer); no panic; no endless loop.
+// Every byte of the log is symbolic and <= 31 (so every stored length is a single-byte uvarint
+// and the buffer Read allocates takes few concrete sizes), or the log is one of two concrete
+// malformed prefixes (overflowing / truncated uvarint). Payload decoder cut as in C12.linkedlog.frame.
+func VerifC12LinkedLogRead() {
+	N := verifParam("N", 14)
+	verifAllocLimit(1 << 20)
+	var content []byte
+	switch verifChoice("shape", 3) {
+	case 0:
+		content = verifBytes("log", N)
+		for _, b := range content {
+			verifAssume(b <= 31)
 		}
+	case 1:
+		content = append(bytes.Repeat([]byte{0xff}, 11), verifBytes("log", 3)...)
+	case 2:
+		content = bytes.Repeat([]byte{0x80}, 10)
+	}
+	path := verifTempPath("linked.log")
+	verifMemFile(path, content)
+	f, err := os.OpenFile(path, os.O_RDWR, 0o644)
+	verifAssert(err == nil, "C12.linkedlog.read: cannot open the log")
+	ll := &LinkedLog{file: f}
+	offset := verifU64("offset")
+	verifAssume(offset <= uint64(len(content)+1))
+	verifC12PayloadLen = -1
+	got, next, err := ll.Read(offset)
+	if err != nil {
+		verifAssert(got == nil && next.IsZero(), "C12.linkedlog.read: Read returned data together with an error")
+		verifReach("read-error")
 	} else {
-		var e OffsetAndSizeAndSlot
-		long := verifChoice("long", 2) == 1
-		if long {
-			// 40 bytes: longer than any encoding (3 uvarints of at most 10 bytes + flags)
-			buf = append(buf, make([]byte, 40-n)...)
-		}
-		err := e.FromBytes(buf)
-		if long {
-			verifAssert(err != nil, "C12.linkedlog.parse: FromBytes accepted an over-long buffer")
-		}
-		if err == nil {
-			verifAssert(len(e.Bytes()) <= len(buf), "C12.linkedlog.parse: FromBytes read more than the buffer holds")
-			verifReach("parse-ok")
-		} else {
-			verifReach("parse-error")
-		}
-	}
-	verifReach("end")
-}
-
-// C12.linkedlog.varint — the same decoders on payloads that contain a LONG uvarint: a run of
-// 8..11 continuation bytes (high bit set, low bits symbolic) followed by 0..T arbitrary bytes,
-// after a prefix of 0, 1, 4 or 12 single-byte varints (symbolic values < 0x80; 12 = three
-// complete entries). Such runs cover the maximal valid encodings (10 bytes, last byte <= 1), the
-// 64-bit overflow cases of binary.Uvarint (10th byte > 1, 11 continuation bytes: n < 0) and the
-// truncated case (n == 0). Oracle: no panic; the element decoder driven one element at a time
-// keeps its cursor inside the buffer and advances by at least 4 bytes per decoded element (so
-// every decoding loop is bounded by the input length); the slice decoder returns at most
-// len/4 entries.
-func VerifC12LinkedLogVarint() {
-	pres := []int{0, 1, 4, 12}
-	p := pres[verifParam("prefixfrom", 0)+verifChoice("prefix", len(pres)-verifParam("prefixfrom", 0))]
-	R := 8 + verifChoice("run", 4)
-	T := verifChoice("tail", verifParam("tail", 2)+1)
-	buf := verifBytes("payload", p+R+T)
-	for i := 0; i < p; i++ {
-		verifAssume(buf[i] < 0x80)
-	}
-	for i := p; i < p+R; i++ {
-		verifAssume(buf[i] >= 0x80)
-	}
-	n := len(buf)
-	if verifChoice("api", 2) == 0 {
-		// the element decoder, one element at a time (what SliceFromBytes iterates), under a
-		// step bound; only an input on which it behaves is handed to the real loop below (a
-		// decoder that does not advance would otherwise never return)
-		r := &uvarintReader{buf: buf}
-		for steps := 0; ; steps++ {
-			verifAssert(steps <= n/4, "C12.linkedlog.varint: more elements decoded than the payload can hold (the decoding loop is not bounded by the input)")
-			before := r.pos
-			var e OffsetAndSizeAndSlot
-			err := e.FromReader(r)
-			verifAssert(r.pos >= 0 && r.pos <= n, "C12.linkedlog.varint: the read cursor left the buffer")
-			if err != nil {
-				break
-			}
-			verifAssert(r.pos >= before+4, "C12.linkedlog.varint: an element was decoded without consuming at least 4 bytes")
-		}
-		out, err := OffsetAndSizeAndSlotSliceFromBytes(buf)
-		if err != nil {
-			verifAssert(out == nil, "C12.linkedlog.varint: SliceFromBytes returned entries together with an error")
-			verifReach("parse-error")
-		} else {
-			verifAssert(len(out)*4 <= n, "C12.linkedlog.varint: more entries than the payload can hold")
-			verifReach("parse-ok")
-		}
-	} else {
-		var e OffsetAndSizeAndSlot
-		if err := e.FromBytes(buf); err == nil {
-			verifAssert(len(e.Bytes()) <= n, "C12.linkedlog.varint: FromBytes read more than the buffer holds")
-			verifReach("parse-ok")
-		} else {
-			verifReach("parse-error")
-		}
+		// the record (1-byte prefix + payload) lies inside the file
+		verifAssert(verifC12PayloadLen >= 0 && offset+1+uint64(verifC12PayloadLen)+9 <= uint64(len(content)), "C12.linkedlog.read: Read succeeded on a record that does not lie inside the file")
+		verifAssert(next.IsValid(), "C12.linkedlog.read: next pointer outside the 48/24-bit range")
+		// exact framing: the stored (single-byte) length covers the payload and the 9-byte pointer
+		verifAssert(uint64(verifC12PayloadLen)+9 == uint64(content[offset]), "C12.linkedlog.read: payload handed to the decoder is not the stored length - 9 bytes")
+		verifReach("read-ok")
 	}
 	verifReach("end")
 }
